@@ -3,6 +3,7 @@
 # Verifies a seeded change in a scratch worktree (outside /repo and /verif) and runs the given checks against it.
 set -u
 export GOFLAGS=-mod=mod GOPROXY=off GOSUMDB=off GOTOOLCHAIN=local
+VERIF=$(cd "$VERIF" && pwd)
 M=$(realpath "$1"); PKG=$2; shift 2
 WT=$(mktemp -d /tmp/mv.XXXXXX); rmdir "$WT"
 git -C /repo worktree add -q --detach "$WT" HEAD || exit 2
@@ -23,7 +24,7 @@ if [ -n "$DEMO" ] && [ "$PKG" != "-" ]; then
 fi
 echo "--- test suite with patch (expect only the 2 network tests to fail):"
 go test -vet=off -count=1 ./... 2>&1 | grep -E "^(--- FAIL|FAIL|ok)" | grep -v "^ok" | sort | uniq -c
-cd "$(dirname "$0")/.."
+cd "$VERIF"
 for P in "$@"; do
   echo "--- check $P quick against the mutant:"
   VERIF_REPO="$WT" ./bin/check $P quick 2>&1 | grep -E "^(VIOLATION|KNOWN|violation|check:|infrastructure|harness|C[0-9]+ quick)" | cut -c1-330 | head -12
